@@ -1,3 +1,4 @@
 import PbProps.C01
 import PbProps.C02
+import PbProps.C10
 import PbProps.C18
